@@ -152,6 +152,21 @@ def init_walkers(ctx):
                     return True
         return False
 
+    # x[:, -n:] keeps *all* columns when n == 0 (-0 is 0): a tail slice must not be bounded by an electron count, which
+    # is zero for a fully polarised system
+    zero_tail = []
+    for path, term, line in ret_leaves:
+        for x in subterms(term):
+            if x.op == "getitem" and x.args[1].op in ("tuple", "slice"):
+                sls = x.args[1].args if x.args[1].op == "tuple" else (x.args[1],)
+                for sl_ in sls:
+                    if hasattr(sl_, "op") and sl_.op == "slice" and len(sl_.args) >= 2:
+                        lo_ = sl_.args[0]
+                        if hasattr(lo_, "op") and lo_.op == "unop" and lo_.args[0] == "-" and any(
+                                y.op == "attr" and y.args[1] == "nelec" for y in subterms(lo_.args[1])):
+                            zero_tail.append((line, show(x.args[1])[:50]))
+    ctx.ob("PAIR-4", f"{fi.qualname}: no tail slice [-n:] bounded by an electron count (n = 0 would keep every column)",
+           not zero_tail, f"tail slices by nelec: {zero_tail[:3]}" if zero_tail else "column selections use [:n]", fi)
     vec_uses, asc = 0, []
     for path, term, line in ret_leaves:
         sub = list(subterms(term))
